@@ -75,8 +75,9 @@ class AfterStart:
 
 class LifeRun:
     runs = 0
+    nested = 0
 
-    def __init__(self, front, nroutes, dup=None):
+    def __init__(self, front, nroutes, dup=None, base=None):
         self.front = front
         self.nroutes = nroutes
         self.sess = Session()
@@ -88,11 +89,22 @@ class LifeRun:
                                     registerer=NfdRegister())
         else:
             self.app = app1.NDNApp(face=self.face, keychain=regkit._Keychain())
+        # Every third appv2 run declares its routes below a common prefix /e that is itself declared as a route first and
+        # detached again before the first connection: the routes below it stay declared (whether /e itself is still
+        # registered after detach_handler is not fixed by the statement: its commands are ignored).
+        LifeRun.nested += 1
+        if base is None:
+            base = '/e' if (front == 'v2' and nroutes >= 1 and LifeRun.nested % 3 == 0) else ''
+        self.base = base
+        if self.base:
+            self.app.route(self.base)(lambda name, app_param, reply, context: None)
         for i in range(1, nroutes + 1):
             if front == 'v2':
-                self.app.route('/' + ROUTE % i)(lambda name, app_param, reply, context: None)
+                self.app.route(self.base + '/' + ROUTE % i)(lambda name, app_param, reply, context: None)
             else:
                 self.app.route('/' + ROUTE % i)(lambda name, param, app_param: None)
+        if self.base:
+            self.app.detach_handler(self.base)
         self.problems = []
         # a second declaration for a prefix that is already taken is refused (appv2: ValueError at declaration time) and is
         # therefore not a declared route: the prefix is still registered once per connection. Every second run tries one.
@@ -102,7 +114,7 @@ class LifeRun:
         self.dup = dup          # route index declared a second time (0: none); kept in replay objects
         if dup:
             try:
-                self.app.route('/' + ROUTE % dup)(lambda name, app_param, reply, context: None)
+                self.app.route(self.base + '/' + ROUTE % dup)(lambda name, app_param, reply, context: None)
                 self.problems.append('a second route() for an occupied prefix was accepted')
             except ValueError:
                 pass
@@ -138,7 +150,14 @@ class LifeRun:
             if c['verb'] != 'register':
                 self.problems.append('unexpected command verb %s' % c['verb'])
                 continue
-            idx = [i for i in range(1, self.nroutes + 1) if c['prefix'] == '/' + ROUTE % i]
+            if self.base and c['prefix'] == self.base:
+                # the detached common prefix: registered or not, both are accepted; the forwarder answers it at once so
+                # that the commands of the declared routes follow (one command is outstanding at a time)
+                c['wire'] = w
+                self._deliver(regkit.make_reply('r200', True, c, w))
+                self.loop.settle()
+                continue
+            idx = [i for i in range(1, self.nroutes + 1) if c['prefix'] == self.base + '/' + ROUTE % i]
             if not idx:
                 self.problems.append('command for unknown prefix %s' % c['prefix'])
                 continue
@@ -281,7 +300,8 @@ class LifeRun:
             att = [enc.Name.to_str(list(k)) for k in self.app._fib.iterkeys()]
         else:
             att = [enc.Name.to_str(list(k)) for k, n in self.app._prefix_tree.iteritems() if n.callback is not None]
-        p['attached'] = sorted(int(a[2:]) for a in att if a.startswith('/r'))
+        pre = self.base + '/r'
+        p['attached'] = sorted(int(a[len(pre):]) for a in att if a.startswith(pre))
         p['bg'] = [str(c.get('exception') or c.get('message')) for c in self.loop.errors]
         p['problems'] = list(self.problems)
         return p
